@@ -238,9 +238,9 @@ pub fn w0(ctx: &mut Ctx, tier: Tier, sink: Sink) {
         let mut idx = 0u64;
         while idx < total {
             let hi = (idx + 256).min(total);
-            ctx.states += 1;
-            ctx.transitions += 1;
             if ctx.mine() {
+                ctx.states += 1;
+                ctx.transitions += 1;
                 for x in idx..hi {
                     for k in 0..n {
                         buf[k] = (x >> (8 * (n - 1 - k))) as u8;
@@ -329,11 +329,11 @@ pub fn w1_templates(flags: u16) -> Vec<Vec<u8>> {
 pub fn w1(ctx: &mut Ctx, _tier: Tier, sink: Sink) {
     let mut buf = Vec::new();
     for flags in 0..=0xffffu32 {
-        ctx.states += 1;
-        ctx.transitions += 1;
         if !ctx.mine() {
             continue;
         }
+        ctx.states += 1;
+        ctx.transitions += 1;
         let flags = flags as u16;
         for t in w1_templates(flags) {
             buf.clear();
@@ -582,11 +582,11 @@ pub fn w3_first_words(ctx: &mut Ctx, _tier: Tier, sink: Sink) {
     ];
     let mut buf = Vec::new();
     for w in 0..=0xffffu32 {
-        ctx.states += 1;
-        ctx.transitions += 1;
         if !ctx.mine() {
             continue;
         }
+        ctx.states += 1;
+        ctx.transitions += 1;
         for (attr, p) in &templates {
             buf.clear();
             buf.extend_from_slice(&(w as u16).to_be_bytes());
@@ -837,11 +837,11 @@ pub fn w6(ctx: &mut Ctx, _tier: Tier, sink: Sink) {
         cases.push((Entry::Message, m));
     }
     for (entry, bytes) in cases {
-        ctx.states += 1;
-        ctx.transitions += 1;
         if !ctx.mine() {
             continue;
         }
+        ctx.states += 1;
+        ctx.transitions += 1;
         sink(
             ctx,
             &WireCase {
